@@ -262,6 +262,10 @@ def _sign_tested(ix, em, st, q, X):
                 return True
             if short in ("is_negative", "is_positive") and len(ks) == 1 and N(ix, ks[0]) == nx:
                 return True
+        # a branch on the raw sign flag of X (`x.negative` after destructuring) is a sign test too
+        for (k_, x_, _o) in sign_tests(ix, [(at, o) for (at, o) in fs]):
+            if k_ in ("is_negative", "is_positive") and N(ix, x_) == nx:
+                return True
         return False
     return guards.path_satisfies(ix, q, pred, st.m)
 
